@@ -16,6 +16,7 @@ use crux_core::macros::{Capability, Effect};
 use crux_core::render::{render, Render};
 use crux_core::Command;
 use crux_http::command::Http as HttpCmd;
+use crux_http::middleware::Redirect;
 use crux_http::Http;
 use crux_kv::command::KeyValue as KvCmd;
 use crux_kv::error::KeyValueError;
@@ -119,7 +120,8 @@ pub enum Event {
     Single,
     /// two concurrent look-alike requests (sites 2 and 3: identical payloads) plus a render
     Two,
-    /// toggles a subscription (site 4): start, or abort the live one via its AbortHandle
+    /// toggles a subscription (site 4): start (the consumer ends by itself after two items),
+    /// or abort the live one via its AbortHandle
     Sub,
     /// (request -> request -> event (sites 5, 6), whose update answers with a further legacy
     /// effect).then(request -> event (site 7))
@@ -135,8 +137,9 @@ pub enum Event {
     Kv(String, #[serde(with = "serde_bytes")] Vec<u8>),
     /// HTTP GET with six headers (Command API); the answer triggers a notification
     Http,
-    /// legacy Platform request + legacy HTTP POST with 43 header lines (12 names with three
-    /// values each) and a body
+    /// legacy Platform request (whose answer triggers a legacy GET with six headers through
+    /// `Redirect::default()`) + legacy HTTP POST with 43 header lines (12 names with three
+    /// values each) and a body through `Redirect::new(2)`
     Legacy,
     // ---- app-internal, but deserializable (they widen the decode surface for C12) ------------
     GotHttp(crux_http::Result<crux_http::Response<Vec<u8>>>),
@@ -197,6 +200,16 @@ pub struct ViewModel {
 
 #[derive(Default)]
 pub struct App;
+
+/// Program selection (set once, before any exploration thread starts): with redirects on, the
+/// legacy POST and a legacy GET go through crux_http's `Redirect` middleware and the shell answers
+/// HTTP requests with 301/302/307 + Location as well. C11 runs with it on; C09 and C12 leave it
+/// off (redirects are C16's subject and every HTTP exchange multiplies C12's fault families).
+pub static REDIRECTS: std::sync::atomic::AtomicBool = std::sync::atomic::AtomicBool::new(false);
+
+pub fn redirects() -> bool {
+    REDIRECTS.load(std::sync::atomic::Ordering::Relaxed)
+}
 
 /// 12 names with three values each (given in an order that is NOT sorted) and 4 single-valued
 /// names: with h-one, h-two and the content type the legacy POST carries 43 header lines.
@@ -262,8 +275,20 @@ impl crux_core::App for App {
                     Command::done()
                 }
                 None => {
-                    let cmd = Command::stream_from_shell(TinyOp::Watch(3))
-                        .then_send(|o| Event::Got(4, o));
+                    // the consumer takes two items and ends by itself (a later item is answered
+                    // FinishedMany and the id becomes free for the next request); it can also
+                    // be aborted before that
+                    let cmd = Command::new(|ctx| async move {
+                        let mut stream = ctx.stream_from_shell(TinyOp::Watch(3));
+                        let mut taken = 0;
+                        while let Some(o) = stream.next().await {
+                            ctx.send_event(Event::Got(4, o));
+                            taken += 1;
+                            if taken == 2 {
+                                break;
+                            }
+                        }
+                    });
                     let handle = cmd.abort_handle();
                     model.sub = Some(Box::new(move || handle.abort()));
                     cmd
@@ -330,6 +355,10 @@ impl crux_core::App for App {
                 for (name, values) in many_headers() {
                     post = post.header(name.as_str(), &values[..]);
                 }
+                // with the redirect middleware: body-less probes (up to two) before the request
+                if redirects() {
+                    post = post.middleware(Redirect::new(2));
+                }
                 post.body_bytes([1u8, 2, 3]).send(Event::GotHttpL);
                 Command::done()
             }
@@ -361,6 +390,21 @@ impl crux_core::App for App {
             }
             Event::GotPlatform(p) => {
                 model.log.push(format!("platform<-{}", p.0));
+                // GET with six headers through the redirect middleware (capability API: the
+                // Command API ignores middleware, K7)
+                if !redirects() {
+                    return Command::done();
+                }
+                caps.http
+                    .get("https://example.com/g/start")
+                    .header("x-alpha", "1")
+                    .header("x-bravo", "2")
+                    .header("x-charlie", "3")
+                    .header("x-delta", "4")
+                    .header("x-echo", "5")
+                    .header("x-foxtrot", "6")
+                    .middleware(Redirect::default())
+                    .send(Event::GotHttpL);
                 Command::done()
             }
             Event::GotNow(t) => {
